@@ -852,6 +852,35 @@ def rule_R31_iter_predicates(text, log, deque=False):
         pos = rs + len(fn)
 
 
+def rule_R34_map_err_closure(text, log):
+    """`RES.map_err(|P| B)` -> `(match RES { Ok(vx_v) => Ok(vx_v), Err(P) => Err(B) })` (definition of Result::map_err; opt-in: `//@rules +R34`)"""
+    out = text
+    rx = re.compile(r'\.\s*map_err\s*\(\s*\|')
+    pos = 0
+    while True:
+        mask = code_mask(out)
+        mm = next((m for m in rx.finditer(out) if m.start() >= pos and mask[m.start()]), None)
+        if not mm:
+            return out
+        op = out.index('(', mm.start())
+        cl = match_brace(out, mask, op)
+        try:
+            pat, body = _closure_parts(out[op + 1:cl])
+        except Unsupported:
+            pos = mm.end()
+            continue
+        if pat is None:
+            pos = mm.end()
+            continue
+        rs = _recv_start(out, mask, mm.start())
+        recv = out[rs:mm.start()]
+        new = '(match %s { Ok(vx_v) => Ok(vx_v), Err(%s) => Err(%s) })' % (recv.strip(), pat, body)
+        pad = '\n' * max(0, out[rs:cl + 1].count('\n') - new.count('\n'))
+        log.append(('R34', norm_ws(out[rs:cl + 1])[:120], norm_ws(new)[:160]))
+        out = out[:rs] + new + pad + out[cl + 1:]
+        pos = rs + 1
+
+
 def rule_R32_or_else(text, log):
     """`OPT.or_else(|| B)` -> `(match OPT { Some(vx_v) => Some(vx_v), None => B })` (definition of Option::or_else)"""
     out = text
@@ -1474,6 +1503,8 @@ class Unit(object):
                 text = rule_R30_and_then(text, log)
             if 'R33' in self.rules:
                 text = rule_R33_cmp_min_max(text, log)
+            if 'R34' in self.rules:
+                text = rule_R34_map_err_closure(text, log)
             if 'R31' in self.rules:
                 text = rule_R32_or_else(text, log)
                 text = rule_R31_iter_predicates(text, log, deque='R31dq' in self.rules)
